@@ -243,6 +243,9 @@ pub enum Act {
     /// completion of batch entry `idx` reports `res` (negative errno or short count);
     /// for a short count the tail of the range is zeroed back
     UringCqe { idx: u64, res: i32 },
+    /// slow thread: at this event the thread is not scheduled for `steps` scheduler steps (or
+    /// until no other thread can run); further faults with the same selector apply afterwards
+    Stall { steps: u64 },
 }
 
 // ---------------------------------------------------------------------------
